@@ -267,7 +267,7 @@ def write_replay(case, violation, directory=None, fingerprint=None):
     sig = hashlib.sha256(violation["signature"].encode()).hexdigest()[:10]
     path = os.path.join(directory, "%s-%d-%s.json" % (case["property"], case["seed"], sig))
     with open(path, "w") as fp:
-        json.dump(doc, fp, indent=1, sort_keys=True)
+        json.dump(doc, fp, indent=1)   # never sort keys: map order is part of a case
         fp.write("\n")
     return path
 
